@@ -160,6 +160,7 @@ def run(ctx):
     other_database_runs(ctx)
     inside_atomic_runs(ctx)
     unmanaged_model_runs(ctx)
+    failing_preparation_runs(ctx)
     rename_plus_new_model_runs(ctx)
     migration_runs(ctx, quick)
     migration_app_runs(ctx)
@@ -591,6 +592,72 @@ def unmanaged_model_runs(ctx):
     again = [nm for n, info in tr2.signals() if n == 'created_models' for nm in info.get('models', [])]
     if again:
         ctx.fail(None, 'a further run announces %s as created again' % again, dict(rep, second_run=tr2.signals()))
+
+
+def failing_preparation_runs(ctx):
+    """runs that fail while the tasks are being PREPARED (inside evolve(), before any SQL): an evolution the
+    simulation rejects, an evolution that names a model that does not exist with nothing else to do, a cyclic
+    dependency between two apps' evolutions.  Whatever was announced is closed: `evolving` is followed by exactly one
+    of `evolved` / `evolving_failed`, and the package's own lock is released"""
+    from django.db import models
+    from django_evolution.mutations import AddField, ChangeField
+
+    def fld(name, t, related=None, **attrs):
+        return {'name': name, 'type': t, 'attrs': attrs, 'related': related}
+
+    def mdl(app, name, fields):
+        return {'name': name, 'table': '%s_%s' % (app, name.lower()), 'unique_together': [], 'index_together': [],
+                'indexes': [], 'constraints': [], 'fields': [fld('id', 'AutoField', primary_key=True)] + fields}
+    spec0 = {'apps': [{'id': 'vapp', 'models': [mdl('vapp', 'Alpha', [fld('a', 'IntegerField', null=True)])]},
+                      {'id': 'wapp', 'models': [mdl('wapp', 'Wal', [fld('w', 'IntegerField', null=True)])]}]}
+    spec1 = {'apps': [{'id': 'vapp', 'models': [mdl('vapp', 'Alpha', [fld('a', 'IntegerField', null=True),
+                                                                       fld('b', 'IntegerField')])]},
+                      {'id': 'wapp', 'models': [mdl('wapp', 'Wal', [fld('w', 'IntegerField', null=True),
+                                                                    fld('x', 'IntegerField', null=True)])]}]}
+    scenarios = [
+        ('an evolution the simulation rejects (NOT NULL column without an initial value)',
+         {'vapp': [{'label': 'add_b', 'mutations': [AddField('Alpha', 'b', models.IntegerField)]}],
+          'wapp': [{'label': 'add_x', 'mutations': [AddField('Wal', 'x', models.IntegerField, null=True)]}]}),
+        ('an evolution that changes a field that does not exist',
+         {'vapp': [{'label': 'add_b', 'mutations': [ChangeField('Alpha', 'nope', initial=None, null=True)]}],
+          'wapp': [{'label': 'add_x', 'mutations': [AddField('Wal', 'x', models.IntegerField, null=True)]}]}),
+        ('two evolutions that each have to come after the other',
+         {'vapp': [{'label': 'add_b', 'after_evolutions': [('wapp', 'add_x')],
+                    'mutations': [AddField('Alpha', 'b', models.IntegerField, initial=0)]}],
+          'wapp': [{'label': 'add_x', 'after_evolutions': [('vapp', 'add_b')],
+                    'mutations': [AddField('Wal', 'x', models.IntegerField, null=True)]}]}),
+    ]
+    for what, evos in scenarios:
+        evorig.fresh_databases()
+        evorig.clear_evolutions()
+        evorig.install_models(spec0)
+        if evorig.run_evolver()[0] != 'ok':
+            ctx.count('failing_preparation:start_failed')
+            continue
+        evorig.install_models(spec1)
+        for app, es in evos.items():
+            evorig.set_evolutions(app, es)
+        lock0 = lock_value()
+        tr = evorig.Trace()
+        r = evorig.run_evolver(trace=tr)
+        names = [n for n, _ in tr.signals()]
+        rep = {'scenario': 'preparation fails: ' + what, 'outcome': r[0], 'signals': names,
+               'error': None if r[0] == 'ok' else '%s: %s' % (type(r[1]).__name__, str(r[1])[:160])}
+        ctx.count('failing_preparation:%s' % r[0])
+        ctx.case({'scenario': rep['scenario'], 'signals': names}, nontrivial=True, sample_cap=3)
+        if r[0] == 'ok':
+            continue        # the scenario did not fail after all: judged by the ordinary runs
+        closed = names.count('evolved') + names.count('evolving_failed')
+        if names.count('evolving') != closed:
+            ctx.fail(None, '%s: evolving was sent %d time(s) and followed by %d evolved and %d evolving_failed'
+                     % (what, names.count('evolving'), names.count('evolved'), names.count('evolving_failed')), rep)
+        if 'evolved' in names:
+            ctx.fail(None, '%s: the run raised and evolved was sent' % what, rep)
+        if lock_value() != lock0:
+            ctx.fail(None, '%s: the run left the package\'s evolve lock at %r (was %r)' % (what, lock_value(), lock0), rep)
+        if tr.write_statements():
+            ctx.fail(None, '%s: the run failed while preparing and had already written: %s'
+                     % (what, tr.write_statements()[:2]), rep)
 
 
 def other_database_runs(ctx):
